@@ -37,8 +37,40 @@ def log(*a):
 # ----------------------------------------------------------------------------------------
 # work directory
 
+class CrashInAnchoredCode(Exception):
+    """The code under test panicked inside a file the property is anchored in, on an input the harness
+    generated (valid by construction): the behaviour the property describes was not delivered."""
+    def __init__(self, args, where, text):
+        Exception.__init__(self, "panic in %s" % where)
+        self.hargs, self.where, self.text = args, where, text
+
+
+def anchored_files(prop):
+    for l in open(os.path.join(ROOT, "properties.jsonl")):
+        p = json.loads(l)
+        if p["id"] == prop:
+            return set(p["anchors"]["files"])
+    return set()
+
+
+PANIC_FRAME_RE = re.compile(r"^\s+(/\S+?)/((?:pkg|cmd)/\S+\.go):(\d+)", re.M)
+
+
+def crash_site(text, prop):
+    """First frame of a Go panic trace that lies in the repository under test; returned (as file:line) if that
+    file is one the property is anchored in."""
+    if "panic:" not in text and "fatal error:" not in text:
+        return None
+    repo = os.environ.get("VERIF_REPO", "/repo").rstrip("/")
+    for m in PANIC_FRAME_RE.finditer(text[text.find("goroutine "):] if "goroutine " in text else text):
+        if m.group(1).rstrip("/") == repo:
+            return "%s:%s" % (m.group(2), m.group(3)) if m.group(2) in anchored_files(prop) else None
+    return None
+
+
 class Work:
     def __init__(self, prop, tier):
+        self.prop = prop
         self.dir = os.path.join(ROOT, ".work", "%s-%s-%d" % (prop, tier, os.getpid()))
         shutil.rmtree(self.dir, ignore_errors=True)
         os.makedirs(self.dir)
@@ -101,6 +133,10 @@ def run_harness(work, vh, args, timeout=1800, check=True, env_extra=None, stdin=
         env.update(env_extra)
     p = subprocess.run([vh] + [str(a) for a in args], env=env, capture_output=True, text=True,
                        timeout=timeout, cwd=work.dir, input=stdin)
+    if p.returncode != 0:
+        where = crash_site(p.stderr or "", getattr(work, "prop", ""))
+        if where:
+            raise CrashInAnchoredCode([str(a) for a in args], where, (p.stderr or "")[-6000:])
     if check and p.returncode != 0:
         raise Inconclusive("harness %s failed (rc=%d):\n%s" % (args[:3], p.returncode, (p.stdout + p.stderr)[-4000:]))
     return p
@@ -361,6 +397,18 @@ class Report:
                        "trace": keep, "detail": detail, "seed": self.seed, "tier": self.tier,
                        "module": module, "constants": constants,
                        "how": "bin/check --replay " + path}, f, indent=1)
+        self.violations.append((assertion, path))
+
+    def crash(self, assertion, hargs, where, text):
+        """The harness died with a panic of the code under test inside a file the property is anchored in."""
+        d = os.path.join(OUTROOT, "replay", self.prop)
+        os.makedirs(d, exist_ok=True)
+        path = os.path.join(d, "%s-%s-seed%d.json" % (re.sub(r"[^A-Za-z0-9]+", "_", assertion), self.tier, self.seed))
+        with open(path, "w") as f:
+            json.dump({"property": self.prop, "assertion": assertion, "kind": "crash", "harness_args": hargs, "panic_at": where,
+                       "stderr": text, "seed": self.seed, "tier": self.tier, "how": "bin/check --replay " + path}, f, indent=1)
+        self.fail_events[assertion] = self.fail_events.get(assertion, 0) + 1
+        self.sample("harness %s died: panic at %s" % (" ".join(hargs[:6]), where))
         self.violations.append((assertion, path))
 
     def finish(self, work=None):
